@@ -51,7 +51,10 @@ fn role_text(case: &ProgCase) -> String {
     let mut t = case.tree.clone();
     if let Some(last) = t.kids.last_mut() {
         let expr = last.pre.clone();
-        last.pre = format!("export const out: string = {};\nexport default 7;\nconsole.log(\"role body ran\");", expr);
+        last.pre = format!(
+            "export const out: string = {};\nexport default 7;\nlet rc: number = 0;\nexport {{ rc as renamed_counter }};\nexport function rbump(): number {{ rc += 1; return rc; }}\nexport let plain_counter: number = 10;\nexport function pbump(): void {{ plain_counter += 1; }}\nrbump(); rbump(); pbump();\nconsole.log(\"role body ran\");",
+            expr
+        );
     }
     let mut s = String::new();
     t.render(&mut s, 0);
@@ -90,6 +93,12 @@ impl Check for C19 {
         let mut imports = BTreeMap::new();
         if rng.chance(0.35) {
             case.module_path = Some("/app/main.ts".into());
+            // a module has exports: one early, one renamed, one after the main work
+            let n = case.tree.kids.len();
+            let at = 3.min(n);
+            case.tree.kids.insert(at, Node::leaf("export const early_export: number = 11;\nlet hidden_local: number = 1;\nexport { hidden_local as renamed_export };"));
+            let n = case.tree.kids.len();
+            case.tree.kids.insert(n - 1, Node::leaf("export const late_export: string = \"late\"; hidden_local = 2;"));
         }
         if rng.chance(0.3) {
             // the program imports a host-provided module (and that one a second one)
@@ -181,29 +190,35 @@ impl Check for C19 {
             // (a) entry program
             let a = run_solo(&mk(text.clone(), Some("/m/T.ts")));
             let a_view = format!(
-                "{:?}|{:?}",
+                "{:?}|{:?}|{:?}|{:?}",
                 a.exports.iter().find(|(n, _)| n == "out").map(|(_, v)| v.clone()),
-                a.exports.iter().find(|(n, _)| n == "default").map(|(_, v)| v.clone())
+                a.exports.iter().find(|(n, _)| n == "default").map(|(_, v)| v.clone()),
+                a.exports.iter().find(|(n, _)| n == "renamed_counter").map(|(_, v)| v.clone()),
+                a.exports.iter().find(|(n, _)| n == "plain_counter").map(|(_, v)| v.clone())
             );
             // (b) host-provided dependency
-            let main_b = "import d, { out } from \"/m/T.ts\";\nexport const o2: string = out;\nexport const d2: number = d;\n0";
+            let main_b = "import d, { out, renamed_counter, plain_counter } from \"/m/T.ts\";\nexport const o2: string = out;\nexport const d2: number = d;\nexport const r2: number = renamed_counter;\nexport const p2: number = plain_counter;\n0";
             let mut sb = mk(main_b.to_string(), Some("/m/main_b.ts"));
             sb.modules.insert("/m/T.ts".into(), text.clone());
             let b = run_solo(&sb);
             let b_view = format!(
-                "{:?}|{:?}",
+                "{:?}|{:?}|{:?}|{:?}",
                 b.exports.iter().find(|(n, _)| n == "o2").map(|(_, v)| v.clone()),
-                b.exports.iter().find(|(n, _)| n == "d2").map(|(_, v)| v.clone())
+                b.exports.iter().find(|(n, _)| n == "d2").map(|(_, v)| v.clone()),
+                b.exports.iter().find(|(n, _)| n == "r2").map(|(_, v)| v.clone()),
+                b.exports.iter().find(|(n, _)| n == "p2").map(|(_, v)| v.clone())
             );
             // (c) internal source module
-            let main_c = "import d, { out } from \"app:T\";\nexport const o2: string = out;\nexport const d2: number = d;\n0";
+            let main_c = "import d, { out, renamed_counter, plain_counter } from \"app:T\";\nexport const o2: string = out;\nexport const d2: number = d;\nexport const r2: number = renamed_counter;\nexport const p2: number = plain_counter;\n0";
             let mut sc = mk(main_c.to_string(), Some("/m/main_c.ts"));
             sc.internal_sources.insert("app:T".into(), text.clone());
             let c = run_solo(&sc);
             let c_view = format!(
-                "{:?}|{:?}",
+                "{:?}|{:?}|{:?}|{:?}",
                 c.exports.iter().find(|(n, _)| n == "o2").map(|(_, v)| v.clone()),
-                c.exports.iter().find(|(n, _)| n == "d2").map(|(_, v)| v.clone())
+                c.exports.iter().find(|(n, _)| n == "d2").map(|(_, v)| v.clone()),
+                c.exports.iter().find(|(n, _)| n == "r2").map(|(_, v)| v.clone()),
+                c.exports.iter().find(|(n, _)| n == "p2").map(|(_, v)| v.clone())
             );
             let ok_a = a.result.starts_with("complete:");
             if ok_a {
